@@ -166,13 +166,6 @@ def install(reg):
         vec.inv = inv
         return vec
 
-    @ax("numpy.array")
-    def array(ex, args, kw, node):
-        (a,) = args
-        if isinstance(a, IntVec) and not kw:
-            return IntVec(a.n, a.at, "fresh")   # copy
-        raise U("numpy.array of this value", node)
-
     @ax("numpy.sum")
     def sum_(ex, args, kw, node):
         a = args[0]
